@@ -75,6 +75,13 @@ def cases(tier, seed, shard, nshards):
     for seq in tokens.sequences(XALPHA, _L(tier), shard, nshards):
         idx += 1
         yield {"k": "x", "d1": (idx + shard) % NDOC, "d2": (idx * 5 + shard + seed) % NDOC, "x": "".join(seq)}
+    runs = ["@article{k%d, title = {x\n", "@string{s%d = {x\n", "@comment{c%d {\n", "@a{k%d, t = \"x\n", "@a{k%d\n"]
+    j = 0
+    for n in ((1500, 5000) if tier == "quick" else (1500, 5000, 20000)):
+        for tpl in runs:
+            j += 1
+            if j % nshards == shard:
+                yield {"k": "x", "d1": j % NDOC, "d2": (j * 7) % NDOC, "x": "".join(tpl % i for i in range(n))}
     r = rng_for(seed, shard, "c04")
     n = tier_pick(tier, 60000, 2400000) // nshards
     for i in range(n):
